@@ -597,6 +597,16 @@ func (tkn *Tokenizer) Scan() (int, []byte) {
 				tkn.next()
 				return LIST_ARG, nil
 			}
+			if isLetter(tkn.lastChar) && tkn.lastChar != '/' {
+				// A named bind variable, which is how a positional '?' is printed (:v1, :v2, ...).
+				buffer := &bytes2.Buffer{}
+				buffer.WriteByte(':')
+				for isLetter(tkn.lastChar) && tkn.lastChar != '/' || isDigit(tkn.lastChar) || tkn.lastChar == '.' {
+					buffer.WriteByte(byte(tkn.lastChar))
+					tkn.next()
+				}
+				return VALUE_ARG, buffer.Bytes()
+			}
 			return int(ch), nil
 		case '/':
 			switch tkn.lastChar {
